@@ -969,4 +969,124 @@ example : ¬ OffBandAt (.sampled 0 1 none) (3 + 1 / 2 ^ 30) := by
   unfold OffBandAt OffBandNum Nix.C07.OffBand
   decide +kernel
 
+/-! ## samples with the same coordinate: repeated ticks -/
+
+/-- **Equal coordinates are taken together.** Two samples of the descriptor with the same coordinate (two events
+with the same time stamp: ticks only have to be ascending, so a value may repeat) are both inside the slice of an
+axis or both outside it -- for every descriptor, position, extent entry, unit pair and stop rule. -/
+theorem C08_equal_coordinates (stop : SliceMode) (dim : DimDesc) (p : Rat) (e? : Option Rat) (unit : Option Str)
+    (sc : Rat) (hd : DimOK dim) (hu : UnitRel unit dim sc)
+    (hs : SepAt dim (regionOf stop p e? sc).s) (he : SepAt dim (regionOf stop p e? sc).e)
+    (a b : Int) (h : axisSlice stop dim p e? unit = .ok (some (a, b)))
+    (i j : Nat) (hi : InDom (dimDom dim) i) (hj : InDom (dimDom dim) j) (hc : dimCoord dim i = dimCoord dim j) :
+    (a ≤ (i : Int) ∧ (i : Int) < b) ↔ (a ≤ (j : Int) ∧ (j : Int) < b) := by
+  have hx := C08_axis stop dim p e? unit sc hd hu hs he
+  rw [h] at hx
+  obtain ⟨ka, kb, rfl, rfl, _, _, hiff⟩ := hx
+  have hij : InRegion dim (regionOf stop p e? sc) i ↔ InRegion dim (regionOf stop p e? sc) j := by
+    unfold InRegion
+    rw [hc]
+  have e1 := hiff i hi
+  have e2 := hiff j hj
+  constructor
+  · intro ⟨h1, h2⟩
+    have := e2.mp (hij.mp (e1.mpr ⟨by omega, by omega⟩))
+    omega
+  · intro ⟨h1, h2⟩
+    have := e1.mp (hij.mpr (e2.mpr ⟨by omega, by omega⟩))
+    omega
+
+/-- **A point on an irregular axis.** Without an extent entry, or with the entry 0, on a descriptor of ascending
+ticks (repeats allowed): the slice holds exactly the ticks equal to the scaled position -- all of a run of equal
+ticks -- and there is no slice exactly when no tick has that value; whatever the stop rule. -/
+theorem C08_point_on_ticks (stop : SliceMode) (ticks : List Rat) (u : Option Str) (p : Rat) (e? : Option Rat)
+    (unit : Option Str) (sc : Rat) (hd : AscendingList ticks) (hu : UnitRel unit (.range ticks u) sc)
+    (he : e? = none ∨ e? = some 0) :
+    match axisSlice stop (.range ticks u) p e? unit with
+    | .ok (some (a, b)) => ∀ i, i < ticks.length → ((a ≤ (i : Int) ∧ (i : Int) < b) ↔ tickCoord ticks i = p * sc)
+    | .ok none => ∀ i, i < ticks.length → tickCoord ticks i ≠ p * sc
+    | .error _ => False := by
+  have hR : regionOf stop p e? sc = ⟨.inclusive, p * sc, p * sc⟩ := by
+    rcases he with rfl | rfl
+    · exact (C08_region_shape stop p 0 sc).2.1
+    · exact (C08_region_shape stop p 0 sc).2.2
+  have hx := C08_axis stop (.range ticks u) p e? unit sc hd hu trivial trivial
+  rw [hR] at hx
+  have hin : ∀ i, InRegion (.range ticks u) ⟨.inclusive, p * sc, p * sc⟩ i ↔ tickCoord ticks i = p * sc := by
+    intro i
+    unfold InRegion InInterval
+    simp only [dimCoord]
+    constructor
+    · intro ⟨h1, h2⟩; exact le_antisymm h2 h1
+    · intro h; rw [h]; exact ⟨le_refl _, le_refl _⟩
+  have hdom : ∀ i, InDom (dimDom (.range ticks u)) i ↔ i < ticks.length := by
+    intro i
+    unfold InDom
+    simp [dimDom]
+  cases hres : axisSlice stop (.range ticks u) p e? unit with
+  | error err =>
+    rw [hres] at hx
+    exfalso
+    have herr : err = .indexError := hx.1
+    subst herr
+    have hsp := (scalePosition_of_unitRel p unit (.range ticks u) sc hu).1
+    have h1 : (stopOf stop (p * sc) sc e?).1 = p * sc := congrArg Region.e hR
+    have h2 : (stopOf stop (p * sc) sc e?).2 = .inclusive := congrArg Region.mode hR
+    unfold axisSlice at hres
+    rw [hsp] at hres
+    simp only [h1, h2, dimRangeIndices, rangeRangeIndices, rangeRangeIndicesT, lt_irrefl, if_false] at hres
+    have hne := pairOrNone_no_indexError (rangeIndexOf ticks (p * sc) IndexMode.geq)
+      (rangeIndexOf ticks (p * sc) (endModeOf Gen.rangeEndMode SliceMode.inclusive))
+    revert hres hne
+    generalize pairOrNone (rangeIndexOf ticks (p * sc) IndexMode.geq)
+      (rangeIndexOf ticks (p * sc) (endModeOf Gen.rangeEndMode SliceMode.inclusive)) = r
+    intro hres hne
+    cases r with
+    | error e => simp_all
+    | ok w => cases w with
+      | none => simp at hres
+      | some w => simp at hres
+  | ok w =>
+    rw [hres] at hx
+    cases w with
+    | none =>
+      intro i hi
+      exact fun hc => hx i ((hdom i).mpr hi) ((hin i).mpr hc)
+    | some w =>
+      obtain ⟨a, b⟩ := w
+      obtain ⟨ka, kb, rfl, rfl, _, _, hiff⟩ := hx
+      intro i hi
+      rw [← hin i, hiff i ((hdom i).mpr hi)]
+      omega
+
+/-- **Equal coordinates are taken together (whole array).** In a valid result of `Tag.tagged_data`, on every axis
+with a position entry, two samples of that axis' descriptor with the same coordinate (a run of equal ticks) are both
+inside the window or both outside: the data never holds a part of a run. -/
+theorem C08_region_equal_coordinates (t : TagDesc) (nrefs refidx : Nat) (ref : Arr) (stop : SliceMode)
+    (scs : List Rat) (hrank : ref.dims.length = ref.shape.length)
+    (hok : AxesOK stop ref.dims t.position t.extent (unitsOpt t.units) scs)
+    (href : refidx < nrefs) (hext : t.extent = [] ∨ t.extent.length = t.position.length)
+    (v : View) (hv : Tag.taggedData t nrefs refidx ref stop = .ok v) (hvalid : v.valid = true)
+    (d : Nat) (dim : DimDesc) (w : Win) (hd : ref.dims[d]? = some dim) (hw : v.window[d]? = some w)
+    (hlt : d < t.position.length) (i j : Nat) (hi : InDom (dimDom dim) i) (hj : InDom (dimDom dim) j)
+    (hc : dimCoord dim i = dimCoord dim j) :
+    (w.1 ≤ (i : Int) ∧ (i : Int) < w.2) ↔ (w.1 ≤ (j : Int) ∧ (j : Int) < w.2) := by
+  have h := C08_region t nrefs refidx ref stop scs hrank hok href hext
+  rw [hv] at h
+  rcases h with ⟨_, _, _, hex, _⟩ | ⟨hf, _⟩
+  · exact windowsExact_equal_coords stop _ _ _ _ _ _ hex d dim w hd hw hlt i j hi hj hc
+  · rw [hvalid] at hf; cases hf
+
+/-- a run of three equal ticks: the point on it takes all three under either stop rule; a region ending on it takes
+the run under `Inclusive` and none of it under `Exclusive`; a region starting on it takes all of it (s -> ms) -/
+example : axisSlice .exclusive (.range [1, 2, 2, 2, 9 / 2, 6] none) 2 none none = .ok (some (1, 4)) ∧
+    axisSlice .inclusive (.range [1, 2, 2, 2, 9 / 2, 6] none) 2 (some 0) none = .ok (some (1, 4)) ∧
+    axisSlice .inclusive (.range [1000, 2000, 2000, 2000, 4500] (some "ms".toList)) 1 (some 1) (some "s".toList)
+      = .ok (some (0, 4)) ∧
+    axisSlice .exclusive (.range [1000, 2000, 2000, 2000, 4500] (some "ms".toList)) 1 (some 1) (some "s".toList)
+      = .ok (some (0, 1)) ∧
+    axisSlice .exclusive (.range [1000, 2000, 2000, 2000, 4500] (some "ms".toList)) 2 (some 1) (some "s".toList)
+      = .ok (some (1, 4)) ∧
+    axisSlice .exclusive (.range [1, 2, 2, 2, 9 / 2, 6] none) 3 none none = .ok none := by decide +kernel
+
 end Nix.C08
